@@ -47,6 +47,8 @@ def path_effects(c, fn, p, verified):
             if f in STATE_FIELDS or (e.addr[0] == 'fld' and e.addr[3] in STATE_FIELDS):
                 out.append((e, 'store to %s' % sym.render(e.addr), {e.addr[3] if e.addr[0] == 'fld' else f}))
         elif e.kind == 'call':
+            if e.inlined:
+                continue
             n = e.name
             if n in NOT_EFFECTS or n.startswith('indirect:') or n.startswith('llvm.dbg'):
                 continue
